@@ -334,7 +334,7 @@ def gen_old(rnd, persona):
         kw = {}
         if rnd.random() < 0.3:
             kw["method"] = rnd.choice(["lines", "whole"])
-        if rnd.random() < 0.3 and frames == 1:
+        if rnd.random() < 0.35:
             kw["z_index"] = rnd.choice([0, 5, -3])
         if rnd.random() < 0.3:
             kw["mix"] = rnd.random() < 0.5
